@@ -127,6 +127,7 @@ structure CoreSt where
   rmPlaced : List String := []   -- keys the RM itself reported as bound (external placement / recovery)
   lostInflight : List String := []   -- real halves of cross-node replacements whose ask was released while in flight (known class I7r)
   lostTimeout : List String := []    -- … whose ask was dropped by the placeholder timeout of a not yet running application (known class I7o)
+  everBound : List String := []      -- keys the core announced as allocated or the RM reported as bound, at any time
   phGoneByRM : List String := []     -- real halves whose placeholder the RM released while the swap was in flight (known class C06 …+placeholder-released-by-rm)
   swapRolledBack : List String := [] -- applications whose in-flight swap was rolled back by the removal of a node (known class C10 …+swap-rolled-back)
 
@@ -227,8 +228,9 @@ def stepClauses (op : String) (_j : Json) (pre post : Core) (msgs : List Json) :
                                        allocated := c.allocated, maxApps := 0, running := 0, allocating := [] }
           (q.allocated.keys ++ (orZero q.max).keys).findSome? (fun k =>
             if QTree.overMax (mk q) k && !QTree.overMax (mk pq) k then some s!"C02.sched-new-overmax {q.path}/{k}" else none)),
-    -- C05: a scheduling cycle creates no new over-quota usage
-    fun _ => if op != "schedule" then none else
+    -- C05: a scheduling decision creates no new over-quota usage: neither a scheduling cycle nor the confirmation of a
+    -- swap the scheduler decided (the real allocation is booked on the user when the shim confirms)
+    fun _ => if !(op == "schedule" || (op == "release" && (jStr (fldD _j "type" (.str ""))).toOption.getD "" == "PLACEHOLDER_REPLACED")) then none else
       (post.users ++ post.groups).findSome? (fun u => u.2.findSome? (fun e =>
         if !usageOver e then none else
         let before := ((pre.users ++ pre.groups).lookup u.1).bind (fun es => es.find? (·.path == e.path))
@@ -350,7 +352,24 @@ def coreStep (st : CoreSt) (j : Json) : Except String (CoreSt × String) := do
     | none => []
   let phGone := st.phGoneByRM ++ phGoneNow
   let rolled := st.swapRolledBack ++ rolledNow
-  let st' : CoreSt := { st' with lostInflight := lost, lostTimeout := lostT, swapRolledBack := rolled, phGoneByRM := phGone }
+  -- C06: a real ask that counts as allocated has been bound at some time (it may linger in the requests after its
+  -- release: observation, not a violation) or is the real half of a swap in flight; an allocated ask that was never
+  -- announced and is linked to no placeholder is lost: it is never scheduled again
+  let msgT (m : Json) (k : String) := (jStr (fldD m k (.str ""))).toOption.getD ""
+  let everBound := st.everBound ++ (msgs.filterMap (fun m => if msgT m "t" == "alloc" then some (msgT m "key") else none)) ++
+      (if op == "alloc" && (jStr (fldD j "node" (.str ""))).toOption.getD "" != "" then [(jStr (fldD j "key" (.str ""))).toOption.getD ""] else [])
+  let fails := fails ++ (post.liveApps.map (fun a => a.items.filterMap (fun i =>
+      if !i.ph && i.allocated && !i.bound && i.inReq && !i.released && i.release.isNone && !everBound.contains i.key then
+        some s!"C06.allocated-ask-never-bound-and-not-in-flight {i.key}" else none))).flatten
+  -- C10, judged from the shim's side: an application that reports Completed has no ask outstanding (submitted, neither
+  -- announced as allocated nor released by either side)
+  let fails := fails ++ (post.apps.filterMap (fun a =>
+      -- (a completed application's id can be submitted again: the record of the old one is not the new application)
+      if a.state != "Completed" || post.liveApps.any (fun l => l.id == a.id && l.state != "Completed") then none else
+      (v2.asks.find? (fun k => k.2 == a.id && !v2.releasing.contains k.1)).map (fun k =>
+        if rolled.contains a.id then s!"C10.completing-with-pending-ask+swap-rolled-back-by-node-removal {a.id}"
+        else s!"C10.completed-with-outstanding-ask {a.id} {k.1}")))
+  let st' : CoreSt := { st' with lostInflight := lost, lostTimeout := lostT, swapRolledBack := rolled, phGoneByRM := phGone, everBound := everBound }
   let fails := fails.map (fun f =>
       if f.startsWith "C06.inflight-real-without-placeholder " && phGone.contains (keyOf f) then
         "C06.inflight-real-without-placeholder+placeholder-released-by-rm " ++ keyOf f else f)
